@@ -520,6 +520,8 @@ class Interp:
         if c == "true": return True
         if c == "false": return False
         if c == "()": return UNIT
+        cg = self.W.user.get("consts")
+        if cg and c in cg: return cg[c]
         if c.startswith('"'):
             b = _str_lit(c)
             return SliceRef(VecObj(list(b), "static"), 0, len(b), True)
@@ -618,7 +620,7 @@ class Interp:
             v = self.operand(frame, rv[1])
             n = rv[2]
             m = re.match(r"(\d+)", n) or re.match(r"const (\d+)", n)
-            cnt = int(m.group(1)) if m else int(self.const(n.replace("const ", "")))
+            cnt = int(m.group(1)) if m else int(self.const(n.replace("const ", "").strip()))
             return Agg([clone_val(v) for _ in range(cnt)], "array")
         if k == "shallow_box":
             return mkbox(unwrap_ptr(self.operand(frame, rv[1])))
